@@ -46,7 +46,8 @@ def shapley_trace(tid, n, v):
     scale = scale_of(v)
     M = max(1.0, max(abs(x) for x in v))
     t = {"tid": tid, "n": n, "kind": "shapley", "scale": scale, "v": D.exact_arr(v, scale), "up": [0] * 2 ** n, "w": [], "useperm": 1 if n <= 6 else 0,
-         "sh_all": [], "sh_one": [], "entry_bits": 1, "en": [0, 0], "maxsh": [], "sh_w": [], "exc": ""}
+         "sh_all": [], "sh_one": [], "entry_bits": 1, "en": [0, 0], "maxsh": [], "sh_w": [], "exc": "", "mg": [], "lo_after": [], "up_after": [],
+         "en_after": [0, 0]}
     try:
         g = full_game(n, v)
         allv = list(compute_shapley_value(g))
@@ -65,11 +66,21 @@ def expl_trace(tid, n, lo, up):
     scale = scale_of(list(lo) + list(up))
     M = max(1.0, max(abs(x) for x in list(lo) + list(up)))
     t = {"tid": tid, "n": n, "kind": "expl", "scale": scale, "v": D.exact_arr(lo, scale), "up": D.exact_arr(up, scale), "w": [], "useperm": 0,
-         "sh_all": [], "sh_one": [], "entry_bits": 1, "en": [0, 0], "maxsh": [], "sh_w": [], "exc": ""}
+         "sh_all": [], "sh_one": [], "entry_bits": 1, "en": [0, 0], "maxsh": [], "sh_w": [], "exc": "", "mg": [], "lo_after": [], "up_after": [],
+         "en_after": [0, 0]}
     try:
         g = bounds_game(n, lo, up)
         e = compute_exploitability(g)
         t["en"] = D.interval(float(e), factorial(n) * scale, rel_ulps=8 * (n + 2), mag=(2 * n + 1) * M, tight=True)
+        # the per-player max-gain games, read in full and coalition by coalition; reading them must leave the game as it was
+        for i in range(n):
+            mg = MaxGainGame(g, i)
+            full = D.exact_arr(mg.get_values(), scale)
+            single = [D.exact_int(mg.get_value(Coalition(c)), scale) for c in range(2 ** n)]
+            t["mg"].append(full if full == single else [x + 999983 for x in full])
+        t["lo_after"] = D.exact_arr(g.get_lower_bounds(), scale)
+        t["up_after"] = D.exact_arr(g.get_upper_bounds(), scale)
+        t["en_after"] = D.interval(float(compute_exploitability(g)), factorial(n) * scale, rel_ulps=8 * (n + 2), mag=(2 * n + 1) * M, tight=True)
     except D.DriverError:
         raise
     except Exception as ex:  # noqa: BLE001
@@ -81,7 +92,8 @@ def dom_trace(tid, n, lo, up, w):
     scale = scale_of(list(lo) + list(up) + list(w))
     M = max(1.0, max(abs(x) for x in list(lo) + list(up)))
     t = {"tid": tid, "n": n, "kind": "dom", "scale": scale, "v": D.exact_arr(lo, scale), "up": D.exact_arr(up, scale), "w": D.exact_arr(w, scale),
-         "useperm": 1 if n <= 5 else 0, "sh_all": [], "sh_one": [], "entry_bits": 1, "en": [0, 0], "maxsh": [], "sh_w": [], "exc": ""}
+         "useperm": 1 if n <= 5 else 0, "sh_all": [], "sh_one": [], "entry_bits": 1, "en": [0, 0], "maxsh": [], "sh_w": [], "exc": "",
+         "mg": [], "lo_after": [], "up_after": [], "en_after": [0, 0]}
     try:
         g = bounds_game(n, lo, up)
         t["maxsh"] = [sh_iv(compute_shapley_value_for_player(i, MaxGainGame(g, i)), n, scale, M) for i in range(n)]
